@@ -560,19 +560,21 @@ fn show_mem(m: &MemSnap) -> String {
 
 /// the real error text → the small set of names shared with the model
 fn err_class(msg: &str) -> &'static str {
+    // the four "edit of an existing table" kinds are ONE token: which wrong table apply_schema meets first
+    // depends on HashSet order when a submission has two of them (see Driver/C15.lean)
     let m = msg;
     if m.contains("at least 1 statement") {
         "empty"
     } else if m.contains("won't drop table") {
         "drop-table"
     } else if m.contains("won't remove column") {
-        "remove-column"
+        "table-edit"
     } else if m.contains("won't change column") {
-        "change-column"
+        "table-edit"
     } else if m.contains("can't add a primary key") {
-        "add-pk"
+        "table-edit"
     } else if m.contains("can't modify primary keys") {
-        "modify-pk"
+        "table-edit"
     } else if m.contains("primary keys mismatched") {
         "imported-pk-mismatch"
     } else if m.contains("columns mismatched") {
